@@ -213,7 +213,12 @@ func (node *harness) NextAction(ctx context.Context, flow Flow) chan IAction {
 	})
 
 	response := make(chan chan IAction, 1)
-	node.mch <- nextHarnessActionMessage{flow: flow, response: response}
+	select {
+	case node.mch <- nextHarnessActionMessage{flow: flow, response: response}:
+	case <-ctx.Done():
+		// the harness's loop may have left already
+		return make(chan IAction)
+	}
 	select {
 	case out := <-response:
 		return out
